@@ -166,6 +166,7 @@ func argVariants(t reflect.Type) []reflect.Value {
 			add(stk.Condition{})
 			add(stk.And().Push(stk.Cond("", stk.Ne, "x")))
 			add([]any{"AND", "a"})
+			add([]any{"CONDITION", "k", stk.Eq, "v"}) // the record Condition.Unmarshal produces
 			add(testLogger)
 		} else {
 			add(stk.Eq)
